@@ -292,6 +292,23 @@ fn main() {
         }
         run.merge(t);
     }
+    // operators inside bracket sets are operators all the same: every string <= L over
+    // 'p [ ] < > 1 *' (a glob-looking pattern with '<' or '>' in it is a comparison pattern and
+    // falls under the operator rule - never silently taken for a glob)
+    {
+        const BR: [char; 7] = ['p', '[', ']', '<', '>', '1', '*'];
+        let lb = run.pick(6, 7);
+        let bnames: Vec<String> = ["p-1", "p-2", "p[-1", "p[1]-1", "p-<", "p<-1", "p>1", "p", "p[<>]-1", "p-11", "p[-2", "p]-1"].iter().map(|s| s.to_string()).collect();
+        run.bound(format!("(c) all {} strings of length <= {} over {:?} x {} names", seqs::count(BR.len(), lb), lb, BR, bnames.len()));
+        seqs::par_seqs(&run, "C02(c)", BR.len(), lb, 3, |_| false, |q, t| {
+            let p: String = q.iter().map(|i| BR[*i]).collect();
+            if !(p.contains('<') || p.contains('>')) {
+                return;
+            }
+            t.transitions += bnames.len() as u64;
+            check_pattern(t, &p, &bnames);
+        });
+    }
     // range grid: every one- and two-bound pattern over a wider grid of bound shapes (equal values
     // in different spellings, modifiers, revisions, long and padded numbers) x every version of
     // the same grid as the candidate, same base and a near-miss base
